@@ -295,13 +295,13 @@ pub open spec fn placed(items: Seq<Item>, out: Seq<Item>, i: int) -> bool {
 pub open spec fn expanded(items: Seq<Item>, out: Seq<Item>) -> bool {
     out.len() == offset(items, items.len() as int) && forall|i: int| 0 <= i < items.len() ==> #[trigger] placed(items, out, i)
 }
-// what the match of `expand` leaves in `derived_impls` when no diagnostic was pushed
+// what the match of `expand` leaves in `derived_impls` when no diagnostic was pushed: the impls asked for, in whatever order
 pub open spec fn impls_ok(di: Seq<ImplBlock>, it: Item) -> bool {
     let ts = wants(it, "ToString"@);
     let tj = wants(it, "ToJson"@);
-    di.len() == b2n(ts) + b2n(tj)
-    && (ts ==> is_tostring_impl(Item::ImplBlock(di[0]), it))
-    && (tj ==> is_tojson_impl(Item::ImplBlock(di[b2n(ts)]), it))
+    di.len() == b2n(ts) + b2n(tj)          // at most two: the positions are spelled out
+    && (ts ==> (di.len() >= 1 && is_tostring_impl(Item::ImplBlock(di[0]), it)) || (di.len() >= 2 && is_tostring_impl(Item::ImplBlock(di[1]), it)))
+    && (tj ==> (di.len() >= 1 && is_tojson_impl(Item::ImplBlock(di[0]), it)) || (di.len() >= 2 && is_tojson_impl(Item::ImplBlock(di[1]), it)))
 }
 pub proof fn lemma_offset_mono(items: Seq<Item>, i: int, k: int)
     requires 0 <= i <= k,
@@ -337,7 +337,13 @@ pub proof fn lemma_expand_step(items: Seq<Item>, k: int, a: Seq<Item>, b: Seq<It
     assert forall|i: int| 0 <= i < k implies placed(items, b, i) by { lemma_offset_mono(items, i + 1, k); lemma_placed_kept(items, a, b, i); }
     let o = offset(items, k);
     assert(in_block(items, k, o) && b[o] == it);
-    if ts { assert(in_block(items, k, o + 1) && b[o + 1 + 0] == Item::ImplBlock(di[0])); }
-    if tj { assert(in_block(items, k, o + 1 + b2n(ts)) && b[o + 1 + b2n(ts)] == Item::ImplBlock(di[b2n(ts)])); }
+    if ts {
+        let q: int = if di.len() >= 1 && is_tostring_impl(Item::ImplBlock(di[0]), it) { 0 } else { 1 };
+        assert(in_block(items, k, o + 1 + q) && b[o + 1 + q] == Item::ImplBlock(di[q]));
+    }
+    if tj {
+        let q: int = if di.len() >= 1 && is_tojson_impl(Item::ImplBlock(di[0]), it) { 0 } else { 1 };
+        assert(in_block(items, k, o + 1 + q) && b[o + 1 + q] == Item::ImplBlock(di[q]));
+    }
     assert(placed(items, b, k));
 }
